@@ -114,7 +114,7 @@ CLAIMED = {
         "run on the real PortProtocol and on the model; traces (write times, answers with outcome class and packet, loop exceptions, "
         "final state, queue) must be EQUAL. Oracle: one answer per call, answered by the deadline, result is own echo/reply, error class "
         "inside the ProtocolError family.",
-        "Trusted: Coq kernel, translator (FSM constants), harness (virtual-time loop = CPython's own _run_once with a clock-advancing selector, in-memory transport). Modelled not verified: asyncio semantics as assumed by the mini loop; threading.Lock, GC timing of never-retrieved task exceptions, the 0418 null-reply special case, the impersonation alert of PortProtocol.send_cmd. Liveness is only 'a wake-up is armed / a wake-up answers' -- that due timers run is the event loop's job.",
+        "Trusted: Coq kernel, translator (FSM constants), harness (virtual-time loop = CPython's own _run_once with a clock-advancing selector, in-memory transport). Modelled not verified: asyncio semantics as assumed by the mini loop (time stands still within an iteration unless an explicit Stall event -- a callback that takes wall time -- moves it, in the model and on the virtual loop alike); threading.Lock, GC timing of never-retrieved task exceptions, the 0418 null-reply special case, the impersonation alert of PortProtocol.send_cmd. Liveness is only 'a wake-up is armed / a wake-up answers' -- that due timers run is the event loop's job.",
         "6 (C07-C09)",
     ),
     "C08": (
@@ -127,7 +127,7 @@ CLAIMED = {
         "the stamp only grows, every other callback leaves buffer and stamp alone), and the command that starts next is the first entry whose caller has not gone -- "
         "everything still waiting has a worse priority or the same priority and a later arrival (C08_next_is_least_pending); computed witness of an overtaking. "
         "One-in-flight is decided by the oracle on the implementation + trace equality, not by a theorem (partial; with a slow transport it is refuted, see above).",
-        "Trusted: Coq kernel, translator (FSM constants), harness (virtual-time loop = CPython's own _run_once with a clock-advancing selector, in-memory transport). Modelled not verified: asyncio semantics as assumed by the mini loop; threading.Lock, GC timing of never-retrieved task exceptions, the 0418 null-reply special case, the impersonation alert of PortProtocol.send_cmd. Liveness is only 'a wake-up is armed / a wake-up answers' -- that due timers run is the event loop's job.",
+        "Trusted: Coq kernel, translator (FSM constants), harness (virtual-time loop = CPython's own _run_once with a clock-advancing selector, in-memory transport). Modelled not verified: asyncio semantics as assumed by the mini loop (time stands still within an iteration unless an explicit Stall event -- a callback that takes wall time -- moves it, in the model and on the virtual loop alike); threading.Lock, GC timing of never-retrieved task exceptions, the 0418 null-reply special case, the impersonation alert of PortProtocol.send_cmd. Liveness is only 'a wake-up is armed / a wake-up answers' -- that due timers run is the event loop's job.",
         "6 (C07-C09)",
     ),
     "C09": (
@@ -137,7 +137,7 @@ CLAIMED = {
         "answered. PARTIAL: 'quiescent => idle, nothing pending' and 'a fresh command succeeds afterwards' are decided by the oracle on "
         "the implementation after every generated episode (final state, pending queue entries, loop exceptions, a probe command to a "
         "responsive device), not by theorems. Four causes of tripped assertions / inconsistent final state are recorded as KNOWN findings.",
-        "Trusted: Coq kernel, translator (FSM constants), harness (virtual-time loop = CPython's own _run_once with a clock-advancing selector, in-memory transport). Modelled not verified: asyncio semantics as assumed by the mini loop; threading.Lock, GC timing of never-retrieved task exceptions, the 0418 null-reply special case, the impersonation alert of PortProtocol.send_cmd. Liveness is only 'a wake-up is armed / a wake-up answers' -- that due timers run is the event loop's job.",
+        "Trusted: Coq kernel, translator (FSM constants), harness (virtual-time loop = CPython's own _run_once with a clock-advancing selector, in-memory transport). Modelled not verified: asyncio semantics as assumed by the mini loop (time stands still within an iteration unless an explicit Stall event -- a callback that takes wall time -- moves it, in the model and on the virtual loop alike); threading.Lock, GC timing of never-retrieved task exceptions, the 0418 null-reply special case, the impersonation alert of PortProtocol.send_cmd. Liveness is only 'a wake-up is armed / a wake-up answers' -- that due timers run is the event loop's job.",
         "6 (C07-C09)",
     ),
     "C17": (
